@@ -76,7 +76,7 @@ def run(ctx):
     quick = ctx.tier == "quick"
     # (1) exhaustive generator on the small configuration
     d = ctx.scratch("gen")
-    write_cfg(os.path.join(d, "Gen.cfg"), 2, 3, 3 if quick else 4, [1, 2] if quick else [1, 2], "bfs")
+    write_cfg(os.path.join(d, "Gen.cfg"), 2, 3, 3 if quick else 4, [1, 13] if quick else [1, 2, 13], "bfs")   # 13: p1:13 makes processors fail
     r = core.run_tlc(d, "NodeGraph", "Gen.cfg", files=[(os.path.join(d, "Gen.cfg"), "Gen.cfg")],
                      workers=core.NCPU, timeout=2400, heap="10g")
     if r.rc != 0:
